@@ -362,9 +362,10 @@ fn opt_allow(rl: &mut Option<RateLimiter>, now: Instant) -> (res: bool)
            ensures=[("term", 'self matches Drawable::Term { term: t, last_line_count: l, draw_state: d } ==> dtt_post(*d, *final(d), t@, final(t)@, *l, *final(l), r)'), ("termlike", 'self matches Drawable::TermLike { term_like: t, last_line_count: l, draw_state: d } ==> dtt_post(*d, *final(d), t@, final(t)@, *l, *final(l), r)'),
                     ("multi", "self matches Drawable::Multi { state: s, idx, force_draw, now } ==> final(s).hidden() == s.hidden() && (s.hidden() ==> final(s).ops() == s.ops())")]),
         Fn("src/draw_target.rs", "Drawable", "clear", ret="r", sig_rewrites=[K.IO_RESULT],
-           rewrites=[Rw("R9", r"drop\(state\);", "let mut state = state; state.drop_impl();")],
+           rewrites=[Rw("R9", r"drop\(state\);", "let mut state = state; state.drop_impl();"),
+                     Rw("R16", r"state\.alignment = ", "state.state.alignment = ")],
            requires=[("term", 'self matches Drawable::Term { term: t, last_line_count: l, draw_state: d } ==> t@.wf() && t@.w <= 65535 && l.0 <= 0x7FFF_FFFF'), ("termlike", 'self matches Drawable::TermLike { term_like: t, last_line_count: l, draw_state: d } ==> t@.wf() && t@.w <= 65535 && l.0 <= 0x7FFF_FFFF')],
-           ensures=[("term", 'self matches Drawable::Term { term: t, last_line_count: l, draw_state: d } ==> exists|e: DrawState| e.lines@.len() == 0 && e.move_cursor == d.move_cursor && e.alignment == d.alignment && #[trigger] dtt_post(e, *final(d), t@, final(t)@, *l, *final(l), r)'), ("termlike", 'self matches Drawable::TermLike { term_like: t, last_line_count: l, draw_state: d } ==> exists|e: DrawState| e.lines@.len() == 0 && e.move_cursor == d.move_cursor && e.alignment == d.alignment && #[trigger] dtt_post(e, *final(d), t@, final(t)@, *l, *final(l), r)'),
+           ensures=[("term", 'self matches Drawable::Term { term: t, last_line_count: l, draw_state: d } ==> exists|e: DrawState| e.lines@.len() == 0 && e.move_cursor == d.move_cursor && e.alignment is Top && #[trigger] dtt_post(e, *final(d), t@, final(t)@, *l, *final(l), r)'), ("termlike", 'self matches Drawable::TermLike { term_like: t, last_line_count: l, draw_state: d } ==> exists|e: DrawState| e.lines@.len() == 0 && e.move_cursor == d.move_cursor && e.alignment is Top && #[trigger] dtt_post(e, *final(d), t@, final(t)@, *l, *final(l), r)'),
                     ("multi", "self matches Drawable::Multi { state: s, idx, force_draw, now } ==> final(s).hidden() == s.hidden() && (s.hidden() ==> final(s).ops() == s.ops())")]),
         Fn("src/draw_target.rs", "VisualLines", "saturating_add", ret="r",
            ensures=[("def", "r.0 as int == if self.0 + other.0 > usize::MAX { usize::MAX as int } else { self.0 + other.0 }")]),
@@ -552,7 +553,7 @@ fn opt_allow(rl: &mut Option<RateLimiter>, now: Instant) -> (res: bool)
                         let x = a.own().unwrap(); let y = b.own().unwrap();
                         assert(x.0 == t@ && x.1 == *l);
                         assert(y.0 == final(t)@ && y.1 == *final(l) && y.2 == *final(d) && x.2 == *d);
-                        let e = choose|e: DrawState| e.lines@.len() == 0 && e.move_cursor == d.move_cursor && e.alignment == d.alignment && #[trigger] dtt_post(e, *final(d), t@, final(t)@, *l, *final(l), __r);
+                        let e = choose|e: DrawState| e.lines@.len() == 0 && e.move_cursor == d.move_cursor && e.alignment is Top && #[trigger] dtt_post(e, *final(d), t@, final(t)@, *l, *final(l), __r);
                         assert(e.lines@ =~= want);
                         assert(req_case(a, b, true, now, want, __r, true, x, y));
                     }
@@ -560,7 +561,7 @@ fn opt_allow(rl: &mut Option<RateLimiter>, now: Instant) -> (res: bool)
                         let x = a.own().unwrap(); let y = b.own().unwrap();
                         assert(x.0 == t@ && x.1 == *l);
                         assert(y.0 == final(t)@ && y.1 == *final(l) && y.2 == *final(d) && x.2 == *d);
-                        let e = choose|e: DrawState| e.lines@.len() == 0 && e.move_cursor == d.move_cursor && e.alignment == d.alignment && #[trigger] dtt_post(e, *final(d), t@, final(t)@, *l, *final(l), __r);
+                        let e = choose|e: DrawState| e.lines@.len() == 0 && e.move_cursor == d.move_cursor && e.alignment is Top && #[trigger] dtt_post(e, *final(d), t@, final(t)@, *l, *final(l), __r);
                         assert(e.lines@ =~= want);
                         assert(req_case(a, b, true, now, want, __r, true, x, y));
                     }
